@@ -19,17 +19,12 @@ def load_values_and_dt(ffp):
         Time step
 
     """
-    # This is broken in numpy version 1.19 since string converter switches to complex
-    try:
-        data = np.genfromtxt(ffp, skip_header=1, delimiter=",", names=True, usecols=0)
-        dt = data.dtype.names[0].split("_")[-1]
-        dt = "." + dt[1:]
-        dt = float(dt)
-    except TypeError:  # needed for numpy==1.19
-        data = np.genfromtxt(ffp, skip_header=2, delimiter=",", usecols=0)
-        with open(ffp) as ifile:
-            dt = float(ifile.read().splitlines()[1].split()[1])
-    values = data.astype(float)
+    # the time step is read from the header line "<npts> <dt>" itself: recovering it from the sanitised genfromtxt column name
+    # dropped the integer part of any dt >= 1
+    data = np.genfromtxt(ffp, skip_header=2, delimiter=",", usecols=0)
+    with open(ffp) as ifile:
+        dt = float(ifile.read().splitlines()[1].split()[1])
+    values = np.atleast_1d(data.astype(float))  # a one-sample file is read as a 0-d array
     return values, dt
 
 
